@@ -1,7 +1,9 @@
 /- C01 — Handshake proves node identity; C03 — handshakes answer only fresh, outstanding
 challenges (handler model, symbolic cryptography). -/
-import Discv5Model.Model.HandlerSpec
+import Discv5Model.Proofs.HandlerIdentity
 namespace Discv5.H
+open HI
+set_option linter.unusedSimpArgs false
 
 /-- What an accepted handshake proves (pure function): the chosen record belongs to the claimed
 id, the signature was made by that id's key over exactly this challenge, this ephemeral key and
@@ -13,15 +15,17 @@ theorem establish_binds_identity (c : Cfg) (remoteId : Id) (ch : Challenge) (sig
     sess.keys.dec = { eph := eph, cd := ch.cd, ini := remoteId, rcp := c.localId, toRcp := true } ∧
     sess.keys.enc = { eph := eph, cd := ch.cd, ini := remoteId, rcp := c.localId, toRcp := false } ∧
     (r = record.getD r ∨ ch.remoteRec = some r) := by
-  sorry
+  obtain ⟨h1, h2, h3, h4, h5, h6, h7⟩ := establish_ok c remoteId ch sig eph record sess r h
+  subst h6
+  exact ⟨h1, h2, h3, h4, h5, rfl, rfl, h7⟩
 
 /-- Every session held for a node id `x` is justified: this node dialled `x` itself, or a
 handshake carrying a signature by `x`'s key, addressed to this node, was received. -/
 theorem session_needs_proof (c : Cfg) (evs : List Ev) (hw : ContactsWF evs) :
     ∀ e ∈ (run c evs).sessions,
       e.1.id ∈ dialled evs ∨
-      ∃ p ∈ handshakeSigs evs, p.2.signer = e.1.id ∧ p.2.dst = c.localId ∧ p.1 = e.1 := by
-  sorry
+      ∃ p ∈ handshakeSigs evs, p.2.signer = e.1.id ∧ p.2.dst = c.localId ∧ p.1 = e.1 :=
+  fun e he => (invA c evs hw).1.sess e he
 
 /-- No forgery: if no received handshake carries a signature made with `x`'s key and this node
 never dialled `x`, then nothing is ever attributed to `x` — no session, no established /
@@ -30,7 +34,18 @@ addresses the datagrams present. -/
 theorem no_forgery (c : Cfg) (evs : List Ev) (x : Id) (hw : ContactsWF evs)
     (hs : ∀ p ∈ handshakeSigs evs, p.2.signer ≠ x) (hd : x ∉ dialled evs) :
     (∀ e ∈ (run c evs).sessions, e.1.id ≠ x) ∧ ∀ o ∈ outputs c evs, attributesTo x o = false := by
-  sorry
+  have bad : ∀ na : NA, Good c evs na → na.id ≠ x := by
+    intro na hg hx
+    rcases hg with h | ⟨p, hp, h1, -, -⟩
+    · exact hd (hx ▸ h)
+    · exact hs p hp (h1.trans hx)
+  refine ⟨fun e he => bad _ ((invA c evs hw).1.sess e he), ?_⟩
+  intro o ho
+  cases hb : attributesTo x o with
+  | false => rfl
+  | true =>
+    obtain ⟨na, hn, hid⟩ := (invA c evs hw).2 o ho x hb
+    exact absurd hid (bad na hn)
 
 /-- Initiator side: the session created when this node answers a WHOAREYOU for its own request to
 `na` has keys derived from an ECDH with `na.id`'s static key (only its holder can use them). -/
@@ -47,7 +62,16 @@ theorem handshake_needs_challenge (c : Cfg) (s : HState) (src : Addr) (srcId non
     (eph : Nat) (record : Option Rec) (ct : Ct)
     (h : s.challenges.any (·.1 == { id := srcId, addr := src }) = false) :
     step c s (.dgram src (.handshake srcId nonce sig eph record ct)) = (s, []) := by
-  sorry
+  have hf : s.challenges.find? (fun x => x.1 == ({ id := srcId, addr := src } : NA)) = none := by
+    rw [List.find?_eq_none]
+    intro x hx
+    have := List.any_eq_false.1 h x hx
+    simpa using this
+  have key : wp (handleAuthMessage c { id := srcId, addr := src } nonce sig eph record ct)
+      (fun _ st' => st' = (s, [])) (s, []) := by
+    unfold handleAuthMessage
+    simp only [wp_bind, wp_getS, hf, wp_pure]
+  exact key
 
 /-- The id-nonces (challenge data) of all WHOAREYOU packets this node ever sends are pairwise
 distinct. -/
@@ -83,7 +107,23 @@ theorem whoareyou_needs_request (c : Cfg) (s : HState) (src : Addr) (nonce cd en
     (step c s (.dgram src (.whoareyou nonce cd enrSeq))).2 = [] ∧
     (step c s (.dgram src (.whoareyou nonce cd enrSeq))).1.sessions = s.sessions ∧
     (step c s (.dgram src (.whoareyou nonce cd enrSeq))).1.pending = s.pending := by
-  sorry
+  have key : wp (handleChallenge c src nonce cd enrSeq)
+      (fun _ st' => st'.2 = [] ∧ st'.1.sessions = s.sessions ∧ st'.1.pending = s.pending) (s, []) := by
+    unfold handleChallenge activeRemoveByNonce
+    simp only [wp_bind, wp_getS]
+    rcases hf : s.active.find? (fun x => x.pkt.nonce == nonce) with _ | call0
+    · simp only [hf, wp_pure]; refine ⟨?_, ?_, ?_⟩ <;> first | rfl | trivial
+    · simp only [hf, wp_bind, wp_setS, wp_pure, wp_ite]
+      have hn : call0.pkt.nonce = nonce := by simpa using List.find?_some hf
+      have hne : ((callNA call0).addr != src) = true := by
+        have := h call0 (List.mem_of_find?_eq_some hf)
+        simp only [not_and] at this
+        simpa [callNA] using this hn
+      rw [if_pos hne]
+      unfold activeInsert
+      simp only [wp_modS]
+      refine ⟨?_, ?_, ?_⟩ <;> first | rfl | trivial
+  exact key
 
 /-- A request is answered with at most one handshake: a second WHOAREYOU for a request whose
 handshake was already sent produces no datagram at all. -/
@@ -91,6 +131,38 @@ theorem one_handshake_per_request (c : Cfg) (s : HState) (src : Addr) (nonce cd 
     (call : Call) (hc : s.active.find? (·.pkt.nonce == nonce) = some call)
     (ha : call.contact.na.addr = src) (hs : call.hsSent = true) :
     ∀ o ∈ (step c s (.dgram src (.whoareyou nonce cd enrSeq))).2, ∀ na p, o ≠ .send na p := by
-  sorry
+  have key : wp (handleChallenge c src nonce cd enrSeq) (fun _ st' => NoSend st') (s, []) := by
+    unfold handleChallenge activeRemoveByNonce
+    simp only [wp_bind, wp_getS, hc, wp_setS, wp_pure, wp_ite]
+    have hne : ¬ ((callNA call).addr != src) = true := by simp [callNA, ha]
+    rw [if_neg hne, if_pos hs]
+    unfold removeExpected failRequest
+    simp only [wp_modS, wp_bind, wp_ite, wp_emit]
+    have h0 : NoSend ({ s with active := s.active.erase call }, []) := fun o ho => by cases ho
+    split
+    · rw [failSession_true]
+      unfold removeExpiredSessions sessRemove
+      simp only [wp_bind, wp_getS, wp_setS, wp_ite, wp_emit, wp_pure, wp_modS]
+      split
+      · refine wp_mono (tail_failSession noSend_tail c _ _ _ ?_) (fun _ _ h => h)
+        intro o ho
+        simp at ho
+        rcases ho with rfl | rfl <;> (intro _ _ hh; cases hh)
+      · refine wp_mono (tail_failSession noSend_tail c _ _ _ ?_) (fun _ _ h => h)
+        intro o ho
+        simp at ho
+        subst ho; intro _ _ hh; cases hh
+    · rw [failSession_true]
+      unfold removeExpiredSessions sessRemove
+      simp only [wp_bind, wp_getS, wp_setS, wp_ite, wp_emit, wp_pure, wp_modS]
+      split
+      · refine wp_mono (tail_failSession noSend_tail c _ _ _ ?_) (fun _ _ h => h)
+        intro o ho
+        simp at ho
+        subst ho; intro _ _ hh; cases hh
+      · refine wp_mono (tail_failSession noSend_tail c _ _ _ ?_) (fun _ _ h => h)
+        intro o ho
+        simp at ho
+  exact key
 
 end Discv5.H
